@@ -3,7 +3,8 @@
 Every rule is decided on *values*.  R1 - R3 (verifier/c14_geo.py) *run* the anchored functions with the interpreter of verifier/c14_np.py on inputs
 with concrete shapes and symbolic entries (a 5x3 coordinate-system record with a general rotation, an (n, 3) grid array, a USET table with scalar
 points, q-set members and grids of every output-system type) and compare what is returned with the geometric meaning - never with a spelling.
-R4 evaluates formrbe3 on symbols (verifier/c14_sem.py) and looks at the values that reach the ordering steps.  R5 (verifier/c14_fit.py) runs
+R4 evaluates formrbe3 on symbols (verifier/c14_sem.py) and looks at the values that reach the ordering steps, and runs it on a finite world of
+tiny USET tables whose rows are in the caller's order (verifier/c14_order.py): every column of the result names, by value, the DOF it was computed from.  R5 (verifier/c14_fit.py) runs
 rbcoords on rigid-body blocks of grids in general frames (on symbols) and at exact witness frames (numbers)."""
 from __future__ import annotations
 
@@ -12,7 +13,7 @@ import ast
 from . import c14_sem as G
 from .c14_geo import r1_inverse_pair, r2_local_frames, r3_rbgeom
 from .c14_fit import r5_rbcoords
-from .core import AnchorError
+from .core import AnchorError, Unsupported
 from .e1_srcmodel import dotted, parent
 from .e2_eval import is_unknown
 
@@ -122,13 +123,46 @@ def r4_rbe3_order(ctx):
             ctx.check(not bad, inst, node, None if not bad else {
                 "reference table rows": bad[0], "consequence": "for a table that is not stored in ascending-id order the matrix no longer maps the "
                 "independent DOF as they occur in the table to the dependent DOF"})
+    _finite_worlds(ctx)
+
+
+def _finite_worlds(ctx):
+    """the documented order of the columns (`the order the DOF occur in the USET table`), decided by value on tiny witness tables
+    (verifier/c14_order.py): UM_List=None"""
+    from . import c14_order as O
+    fn = ctx.src.func(N2P, "formrbe3")
+    for name, ids, groups in O.WORLDS:
+        world = f"witness table: grids {', '.join(map(str, ids))} in this order ({name}), dependent grid {O.DEP}, Ind_List = " + \
+                ", ".join(f"[{d}{', ' + w if w else ''}], {list(gs)}" for d, w, gs in groups)
+        inst = "formrbe3: the columns follow the independent DOF in the order they occur in the USET table (each column is computed from the " \
+               f"rigid-body row of its own DOF) - {world}"
+        try:
+            expected, runs = O.run_world(ctx, fn, name, ids, groups)
+        except O._Crash as e:
+            ctx.fail(inst, fn, {"run-time error on a valid table": str(e)})
+            continue
+        except Unsupported as e:
+            ctx.error(inst, fn, str(e))
+            continue
+        want = [(g, d) for g, d, _ in expected]
+        unclear = [cols for cols in runs if any(len(labs) != 1 for labs, _ in cols)]
+        if unclear:
+            ctx.error(inst, fn, {"columns that are not computed from exactly one independent DOF": _show(unclear[0], 400)})
+            continue
+        bad = [[next(iter(labs)) for labs, _ in cols] for cols in runs if [next(iter(labs)) for labs, _ in cols] != want]
+        ctx.check(not bad, inst, fn, None if not bad else {
+            "columns (id, dof) of the returned matrix": _show(bad[0], 400), "order of occurrence in the table": _show(want, 400),
+            "consequence": "rbe3 @ (independent motion in table order) is not the motion of the dependent grid: an order of the ids was presupposed "
+                           "that nothing established"})
+        # (that every DOF keeps the weight of its own Ind_List group is *not* checked: misplaced weights change the interpolation but any positive
+        # weights reproduce rigid-body motion exactly, so it is not a necessary condition of this property)
 
 
 RULES = [
     ("C14-R1", r1_inverse_pair, 14),
-    ("C14-R2", r2_local_frames, 14),
+    ("C14-R2", r2_local_frames, 16),
     ("C14-R3", r3_rbgeom, 7),
-    ("C14-R4", r4_rbe3_order, 4),
+    ("C14-R4", r4_rbe3_order, 7),
     ("C14-R5", r5_rbcoords, 7),
 ]
 LEVEL = "other"
@@ -142,7 +176,10 @@ EXPLANATION = ("Static, decided on values: the anchored functions are *executed*
                "the grid's local position, zeros elsewhere, for a vector and a grid-id reference point, and skips a rotation only on the polar axis "
                "(witness table of off-axis points, exact numbers); (R3) rbgeom's 6x6 block per grid is [[I, -[r x]], [0, I]] about a scalar, vector, (1, 3) or "
                "default reference, the zero short cut is taken only for the zero vector, rbmove composes with rbgeom; (R4) formrbe3 orders rows / columns "
-               "against the USET index in table order; (R5) rbcoords, run on blockdiag(M, M) [[I, -[p x]], [0, I]] for grids in a general frame M, in "
+               "against the USET index in table order, and - run on witness tables of three independent grids whose ids ascend / do not ascend, with "
+               "rbgeom_uset returning one symbol per (row label, column) and a linear solve acting column by column - returns columns that are "
+               "computed from the independent DOF in their order of occurrence in the table (UM_List=None); (R2) also: a grid id given as reference "
+               "is found wherever its rows are, on witness tables in the caller's order (ids 15, 9, 4, 6 / 6, 12, 15, 2, 4), every grid as reference; (R5) rbcoords, run on blockdiag(M, M) [[I, -[p x]], [0, I]] for grids in a general frame M, in "
                "the reference frame and with zero rows, returns p for each grid (its own block, its own frame; exact solve) with zero deviations, and - "
                "at exact witness frames tilted by 1e-2 ... 1e-6, half / quarter turns, a permutation, where every test the function makes has a truth "
                "value - bypasses the least-squares fit only where the location is still right to 1e-7 x distance (a tolerance on the diagonal of the "
@@ -153,15 +190,19 @@ MANIFEST = {
             "system: rectangular step, local position, cylindrical/spherical unit-vector frames applied to both row triplets, type codes 2/3, rotations "
             "skipped only at the true polar axis, scalar points and q-set grids left zero, vector and grid-id reference points; (R3) rbgeom is theta x r about "
             "the reference point, the shift is skipped only for the zero vector, rbmove composes with rbgeom; (R4) formrbe3 sorts against the USET table in "
-            "table order; (R5) rbcoords recovers each grid's location from its own block in its own frame (general rotation, reference frame, zero "
+            "table order (symbolic ordering steps; columns by value on witness tables with ascending and non-ascending ids, UM_List=None); a grid-id "
+            "reference of rbgeom_uset is located by label, not by an order of the ids nothing established (witness tables in caller's order); (R5) rbcoords recovers each grid's location from its own block in its own frame (general rotation, reference frame, zero "
             "rows), reports zero deviations for exactly rigid modes, and bypasses the least-squares fit only for frames where the location stays "
             "right to 1e-7 x distance (witness frames tilted by 1e-2 ... 1e-6, half / quarter turns). "
-            "Not decided: reference-chain resolution (mkusetcoordinfo / build_coords), the least-squares solve of formrbe3, replace_basic_cs, "
+            "Not decided: reference-chain resolution (mkusetcoordinfo / build_coords), the least-squares solve of formrbe3, its column order with a UM_List, "
+            "whether each DOF keeps its own weight (any positive weights reproduce rigid motion), replace_basic_cs, "
             "rbcoords on modes that are not rigid (its deviation report), floating-point conditioning of the fit.",
     "note": "Trusted: CPython ast; verifier/e2_formula.py; verifier/c14_np.py (model of the Python / numpy / pandas operations the anchored functions "
             "use; mksetpv, mkdofpv and - inside rbgeom_uset / rbmove - rbgeom are modelled by their documented meaning; lstsq / solve / inv / pinv of a square "
             "matrix are the exact solution where the determinant does not vanish identically, the minimum-norm solution zero for the zero matrix; "
-            "np.allclose / isclose are the comparisons |a - b| <= atol + rtol |b|); verifier/c14_sem.py. "
+            "np.allclose / isclose are the comparisons |a - b| <= atol + rtol |b|; np.searchsorted / bisect are the bisection they perform, whatever the "
+            "order of the array; table.reset_index() is its [id, dof, columns] array); verifier/c14_sem.py; verifier/c14_order.py (expanddof, "
+            "locate.mat_intersect, mkdofpv by their documented meaning; labels compared only for equality / order). "
             "atan2(k sin u, k cos u) = u is used for k > 0 (R > 0, 0 < theta < 180 deg: away from the polar singularities, as in the property's domain). "
             "Guards are refuted, never proved, at the points of a finite witness table (exact rational arithmetic; square roots to 1e-30).",
     "technique": "static symbolic execution (concrete shapes, symbolic entries) and composition of the coordinate maps and rigid-body blocks; exact "
